@@ -327,6 +327,13 @@ def run(pid, cfg, seed, tier, workdir, log, harness, driver, replay_lines=None):
         if mode == "shutdown" and (not steps or steps[-1] != "X"):
             steps = steps + ["X"]
         bg = (mode in ("bg", "shutdown")) or (wcfg.get("bg_share", 0) > 0 and src == "gen" and rng.random() < wcfg.get("bg_share", 0))
+        if bg:
+            # with the real background writer a timer flush can fall between two commands of ONE
+            # request, so an unacknowledged multi-command request may legitimately be half applied
+            # after a crash (two transaction groups); acknowledged content is unaffected. The
+            # expectation "in-flight request entirely or not at all" is therefore only used with
+            # single-command requests here.
+            steps = [(":".join(st.split(":")[:4] + [st.split(":")[4].split("+")[0]]) if st.startswith("W:") else st) for st in steps]
         res, err = run_workload(harness, steps, "bg" if bg else "sync", wdir, log)
         if err:
             cases.append(dict(op="walhist %s" % " ".join(steps), impl="harness:" + err, model="-", spec=None, hyps=[], tags=src))
